@@ -153,7 +153,7 @@ class BuiltinBroachingCodeGenerator(BroachingCodeGenerator):
                 args.append(sub_ast)
             elif isinstance(arg, KeywordArg):
                 sub_ast = self._gen_plan_element_dispatch(state, arg.element)
-                if iskeyword(arg.key):  # e.g. TypedDict key `from`
+                if iskeyword(arg.key) or arg.key == "__debug__":  # e.g. TypedDict key `from`
                     keywords.append(
                         ast.keyword(value=ast.Dict(keys=[ast.Constant(arg.key)], values=[sub_ast])),  # type: ignore[call-overload]
                     )
